@@ -49,12 +49,21 @@ with open(os.path.join(root, 'SUMMARY.md'), 'w') as f:
     f.write(f'\n{n} seeded defects; first pass caught {c1}, missed {m1}; with the current checks {c2} of {n} are caught '
             f'(C04_8 and C09_8 stopped violating anything once D25 was repaired: their demonstrations pass on both trees now; '
             f'C10_5 / C10_8 / C10_10 are reported by C12, whose subject they are).\n')
-    refs = sorted(glob.glob(os.path.join(root, 'refactors', '*', 'result.json')))
-    if refs:
-        f.write('\n## Behaviour-preserving refactors (no alarm expected)\n\n| refactor | alarms | anchors that fell back |\n|---|---|---|\n')
-        for p in refs:
-            r = json.load(open(p)); name = os.path.basename(os.path.dirname(p))
-            alarms = [k for k, v in r.items() if isinstance(v, dict) and v['rc'] != 0]
-            fb = sorted({a for k, v in r.items() if isinstance(v, dict) for a in (v.get('fallback_anchors') or [])})
-            f.write(f'| {name} | {", ".join(alarms) or "none (20/20 checks exit 0)"} | {", ".join(fb) or "none"} |\n')
+    rdirs = sorted(d for d in glob.glob(os.path.join(root, 'refactors', '*')) if os.path.isdir(d))
+    if rdirs:
+        f.write('\n## Behaviour-preserving refactors (no alarm expected)\n\nThe latest run of each (against the checks of the '
+                'properties its functions belong to; `result.json` = first run, later files = re-runs after corrections).\n\n'
+                '| refactor | checks run | alarms | anchors that fell back |\n|---|---|---|---|\n')
+        for d in rdirs:
+            runs = [os.path.join(d, n) for n in ('result.json', 'result_now.json', 'result_now2.json', 'result_final.json') if os.path.exists(os.path.join(d, n))]
+            if not runs: continue
+            # per check: the latest run that included it
+            merged = {}
+            for p in runs:
+                for k, v in json.load(open(p)).items():
+                    if isinstance(v, dict): merged[k] = v
+            name = os.path.basename(d)
+            alarms = [k for k, v in merged.items() if v['rc'] != 0]
+            fb = sorted({a for v in merged.values() for a in (v.get('fallback_anchors') or [])})
+            f.write(f'| {name} | {len(merged)} | {", ".join(sorted(alarms)) or "none"} | {", ".join(fb) or "none"} |\n')
 print(open(os.path.join(root, 'SUMMARY.md')).read()[-1500:])
